@@ -320,9 +320,12 @@ def to_value(x):
                 r.addItem(k, to_value(v))
             return r
         if tag == "date":
+            # 'YYYYmmddHHMMSS' optionally followed by '.ffffff'
             import datetime
-            return V.ValueDate(
-                datetime.datetime.strptime(x[1], "%Y%m%d%H%M%S"))
+            t, _, frac = x[1].partition(".")
+            return V.ValueDate(datetime.datetime(
+                int(t[0:4]), int(t[4:6]), int(t[6:8]), int(t[8:10]),
+                int(t[10:12]), int(t[12:14]), int(frac or 0)))
         if tag == "pat":
             return V.ValuePattern(x[1])
         if tag == "dec":  # int-backed decimal is not used; plain float
@@ -587,7 +590,10 @@ def from_value(v):
     if isinstance(v, V.ValueObject):
         return ("obj", [(k, from_value(x)) for k, x in v.value.items()])
     if isinstance(v, V.ValueDate):
-        return ("date", v.value.strftime("%Y%m%d%H%M%S"))
+        d = v.value
+        return ("date", "%04d%02d%02d%02d%02d%02d" % (
+            d.year, d.month, d.day, d.hour, d.minute, d.second) +
+            (".%06d" % d.microsecond if d.microsecond else ""))
     if isinstance(v, V.ValuePattern):
         return ("pat", v.value)
     return ("other", type(v).__name__)
